@@ -21,6 +21,27 @@ CHECKS = {
         note="n>5000 and k>4 unexplored; rank oracle is the combinatorial number system identity.",
         technique="rank/unrank identity oracle + intercepted scorer calls",
     ),
+    "C07": dict(
+        cat="exploration",
+        text="Set-algebra oracle on the real chunk index function over the complete (n_thetas, n_chunks) grid for small n plus sampled n<=400; every chunk computed by the real function with a recording metric, saved, loaded and concatenated in random orders with repetition, compared byte-wise with the single-chunk matrix and with metric(pred_i,pred_j) recomputed by the harness; incomplete matrices must refuse to densify.",
+        ref="4/C07",
+        note="Assembly explored for n_thetas<=9; harness stub thetas with prescribed predictions and real sparse-combo samples; h5py trusted.",
+        technique="reference set algebra + differential (single-chunk vs any assembly order) monitor on real h5 chunk files",
+    ),
+    "C16": dict(
+        cat="exploration",
+        text="Exhaustive DFS over all selection histories (every allowed plate made best-scoring in turn through the real select_next_plate and policy) for every shape with <=3 samples x <=4 plates, k<=4, with and without observed plates; random walks with random scores (ties, -inf) on larger screens; the statement's clauses are evaluated at every recorded (batch, remaining) state.",
+        ref="4/C16",
+        note="Shapes beyond 3x4 (k>4) only by random walks up to 6 samples x 8 plates, k<=5.",
+        technique="history enumeration through the real policy + clause checker on every reachable state",
+    ),
+    "C17": dict(
+        cat="exploration",
+        text="A step-counting model whose exported state carries the step counter reads off the recorded steps for the complete (burn-in, thin, count) grid; the real SparseDrugCombo is run with counting wrappers; the generator handed to set_rng is captured per (seed, n_chains, chain) and compared by bit-generator state and first 4096 outputs; VI stub.",
+        ref="4/C17",
+        note="Stream non-overlap decided on a 4096-output prefix; grid bounds b<=12/24, t<=5/7, n<=8/12.",
+        technique="call-order trace monitor with unique step tags + generator-state comparison",
+    ),
 }
 
 NOT_BUILT_REASON = "check not built yet in this revision (planned, see DESIGN.md section 4)"
